@@ -344,27 +344,9 @@ def mutate_attr(obj, rng) -> Optional[Tuple[str, str]]:
             except Exception:
                 continue
     elif r < 0.5:
-        # one attribute of one specific asset id (an immutable value: replaced in its owner's list)
-        for o, cls in nodes:
-            sids = getattr(o, "specific_asset_id", None)
-            if cls in ("AssetInformation", "Entity") and sids:
-                k = rng.randrange(len(sids))
-                a = sids[k]
-                ref = model.ExternalReference((model.Key(model.KeyTypes.GLOBAL_REFERENCE, "urn:vf:changed"),))
-                which = rng.choice(["name", "value", "external_subject_id", "semantic_id"] + (["supplemental_semantic_id"] * 3 if a.semantic_id is not None else []))
-                kw = dict(name=a.name, value=a.value, external_subject_id=a.external_subject_id, semantic_id=a.semantic_id,
-                          supplemental_semantic_id=list(a.supplemental_semantic_id))
-                if which in ("name", "value"):
-                    kw[which] = kw[which][:50] + "X"
-                elif which == "supplemental_semantic_id":
-                    kw[which] = kw[which] + [ref]
-                else:
-                    kw[which] = ref if kw[which] != ref else None
-                try:
-                    sids[k] = model.SpecificAssetId(**kw)
-                    return "SpecificAssetId", which
-                except Exception:
-                    continue
+        w = mutate_sid(nodes, rng, None)
+        if w:
+            return w
     for o, cls in nodes:
         if cls in ("Key", "ExternalReference", "ModelReference", "SpecificAssetId"):
             continue                         # immutable value objects: changed through their owner's attribute below
@@ -397,6 +379,66 @@ def mutate_attr(obj, rng) -> Optional[Tuple[str, str]]:
     return None
 
 
+SID_ATTRS = ["name", "value", "external_subject_id", "semantic_id", "supplemental_semantic_id"]
+
+
+def mutate_sid(nodes, rng, which: Optional[str]) -> Optional[Tuple[str, str]]:
+    """one attribute of one specific asset id (an immutable value: replaced in its owner's list)"""
+    from basyx.aas import model
+    for o, cls in nodes:
+        sids = getattr(o, "specific_asset_id", None)
+        if cls in ("AssetInformation", "Entity") and sids:
+            order = list(range(len(sids)))
+            rng.shuffle(order)
+            for k in order:
+                a = sids[k]
+                ref = model.ExternalReference((model.Key(model.KeyTypes.GLOBAL_REFERENCE, "urn:vf:changed"),))
+                w = which or rng.choice(SID_ATTRS)
+                if w == "supplemental_semantic_id" and a.semantic_id is None:
+                    continue
+                kw = dict(name=a.name, value=a.value, external_subject_id=a.external_subject_id, semantic_id=a.semantic_id,
+                          supplemental_semantic_id=list(a.supplemental_semantic_id))
+                if w in ("name", "value"):
+                    kw[w] = kw[w][:50] + "X"
+                elif w == "supplemental_semantic_id":
+                    kw[w] = kw[w] + [ref]
+                elif w == "semantic_id" and kw["supplemental_semantic_id"]:
+                    kw[w] = ref                      # cannot be unset while supplemental ids are present (AASd-118)
+                else:
+                    kw[w] = ref if kw[w] != ref else None
+                try:
+                    sids[k] = model.SpecificAssetId(**kw)
+                    return f"{cls}>SpecificAssetId", w
+                except Exception:
+                    continue
+    return None
+
+
+def sid_nodes(obj):
+    from vf import meta
+    out = []
+
+    def walk(o):
+        try:
+            cls = meta.class_name(o)
+        except TypeError:
+            return
+        out.append((o, cls))
+        for attr, kind in meta.META[cls]:
+            v = getattr(o, attr)
+            k = kind[1:] if kind[0] == "o" else kind
+            head = k.split(":")[0]
+            if v is None:
+                continue
+            if head == "node":
+                walk(v)
+            elif head in ("list", "list1", "set", "set1", "elems", "elems_ordered"):
+                for x in v:
+                    walk(x)
+    walk(obj)
+    return out
+
+
 def arg_is_ref(kind: str) -> bool:
     return kind.endswith(":Reference")
 
@@ -422,6 +464,18 @@ def checker_pairs(seed: int, n: int):
     from vf import canon
     rng = random.Random(f"C20pairs:{seed}")
     out = []
+    # directed: every attribute of a specific asset id, below a shell's asset information and below an entity
+    for owner in ("AssetInformation", "Entity"):
+        for which in SID_ATTRS:
+            for t in range(60):
+                tag = f"C20sid:{seed}:{owner}:{which}:{t}"
+                a, b = make_obj(tag), make_obj(tag)
+                if has_unordered_list_or_nan(a):
+                    continue
+                w = mutate_sid([x for x in sid_nodes(b) if x[1] == owner], rng, which)
+                if w and canon.diff(canon.canon(a), canon.canon(b)) is not None:
+                    out.append((a, b, w))
+                    break
     i = 0
     while len(out) < n and i < 4 * n:
         i += 1
